@@ -20,6 +20,7 @@
 #include <sstream>
 #include <iostream>
 #include <exception>
+#include <algorithm>
 #include <unistd.h>
 #include <signal.h>
 #include <fcntl.h>
@@ -138,9 +139,22 @@ static void dump_state(const char* ev, bool ok, const std::string& extra = "") {
     }
     if (e->tce) printf(",\"tce\":{\"i\":%d,\"k\":\"%s\"}", e->tce->m_i, HexStr(e->tce->m_k).c_str());
     else printf(",\"tce\":{\"i\":-1,\"k\":\"\"}");
-    if (!g_log.empty()) {
-        printf(",\"log\":[");
-        for (size_t i = 0; i < g_log.size(); i++) printf("%s%s", i ? "," : "", jstr(g_log[i]).c_str());
+    {
+        // digests the code computed during this command, in computation order, as byte-order hex
+        printf(",\"digests\":[");
+        bool first = true;
+        for (auto& l : g_log) {
+            size_t p = l.find("sighash");
+            size_t q = l.find("= ");
+            if (p == std::string::npos || q == std::string::npos || q < p) continue;
+            std::string h = l.substr(q + 2);
+            while (!h.empty() && (h.back() == '\n' || h.back() == ' ')) h.pop_back();
+            if (h.size() != 64 || !IsHex(h)) continue;
+            auto v = ParseHex(h);
+            std::reverse(v.begin(), v.end());
+            printf("%s\"%s\"", first ? "" : ",", hx(v).c_str());
+            first = false;
+        }
         printf("]");
         g_log.clear();
     }
@@ -160,12 +174,11 @@ static void open_session(std::map<std::string, std::string>& m) {
     S.inst = new Instance();
     Instance& I = *S.inst;
     try {
-        if (m.count("caplog") && m["caplog"] == "1") {
-            btc_sighash_logf = cap_logf;
-        } else {
-            btc_sighash_logf = btc_logf_dummy;
-        }
         btc_logf = btc_logf_dummy; btc_sign_logf = btc_logf_dummy; btc_segwit_logf = btc_logf_dummy; btc_taproot_logf = btc_logf_dummy;
+        btc_sighash_logf = btc_logf_dummy;
+        if (m.count("caplog") && m["caplog"] == "1") {
+            btc_sign_logf = cap_logf;      // "  sighash     = <reversed hex>" and "- schnorr sighash = <reversed hex>"
+        }
         if (m.count("tx") && m["tx"] != "-") {
             std::string t = m["tx"];
             if (m.count("amounts") && m["amounts"] != "-") t = m["amounts"] + ":" + t;
@@ -187,6 +200,13 @@ static void open_session(std::map<std::string, std::string>& m) {
             if (m.count("succ")) { auto v = unhex(m["succ"]); I.successor_script = CScript(v.begin(), v.end()); }
             if (m.count("sigver")) I.sigver = (SigVersion)atoi(m["sigver"].c_str());
             if (m.count("weight")) { I.execdata.m_validation_weight_left = atoll(m["weight"].c_str()); I.execdata.m_validation_weight_left_init = true; }
+            if (m.count("leafhash") && m["leafhash"] != "-") { I.execdata.m_tapleaf_hash = uint256(unhex(m["leafhash"])); I.execdata.m_tapleaf_hash_init = true; }
+            if (m.count("annex")) {
+                if (m["annex"] != "-") { auto a = unhex(m["annex"]); I.execdata.m_annex_hash = (HashWriter{} << a).GetSHA256(); I.execdata.m_annex_present = true; }
+                else I.execdata.m_annex_present = false;
+                I.execdata.m_annex_init = true;
+            }
+            if (m.count("preamble") && m["preamble"] == "1") I.has_preamble = true;
         }
         unsigned int flags = (unsigned int)strtoul(m["flags"].c_str(), nullptr, 10);
         if (!I.setup_environment(flags)) {
